@@ -500,8 +500,9 @@ def run(ctx):
         nl = rng.choice([1, 1, 2, 3])
         langs = [gen_spans(rng, sorted_only=(rng.random() < 0.6)) for _ in range(nl)]
         sami_cases.append(langs)
-    reqs_m, reqs_ok, sjobs = [], [], []
-    for langs in sami_cases:
+    reqs_m, reqs_ok, sjobs, reqs_doc = [], [], [], []
+    for si, langs in enumerate(sami_cases):
+        reqs_doc.append((206, [wire_caps(sp) for sp in langs]))
         cs, _ = build_set(langs, False)
         mk = rng.choice([lambda: SAMIWriter(), lambda: SAMIWriter(),
                          lambda: SAMIWriter(relativize=False, fit_to_screen=False, video_width=640, video_height=360)])
@@ -511,13 +512,30 @@ def run(ctx):
                 o = obs.v.get(LANGS[li], [])
             else:
                 o = obs
-            sjobs.append((langs, li, spans, o))
+            sjobs.append((langs, li, spans, o, si))
             reqs_m.append((202, wire_caps(spans)))
             reqs_ok.append((203, [wire_caps(spans), o if not isinstance(o, Err) else []]))
     models = oracle_batch(reqs_m)
     oks = oracle_batch(reqs_ok)
-    for (langs, li, spans, o), m, ok in zip(sjobs, models, oks):
+    docs = []
+    for i in range(0, len(reqs_doc), 300):
+        docs += oracle_batch(reqs_doc[i:i + 300])
+    for (langs, li, spans, o, si), m, ok in zip(sjobs, models, oks):
         res["evaluations"] += 1
+        # the DOCUMENT model (model/Langs.v sami_write over all languages of the set, request 206): where the syncs of
+        # every language stand in the body - compared for EVERY set, timeline or not
+        dm = docs[si]
+        if dm != BAD_WIRE and not isinstance(o, Err) and all(re.fullmatch(r"-?[0-9]+", x[0]) for x in o):
+            bump_key = "sami_languages_compared_with_the_document_model"
+            dist[bump_key] = dist.get(bump_key, 0) + 1
+            if [[int(x[0]), bool(x[1])] for x in o] != [[x[0], x[1] == 1] for x in dm[li]]:
+                res["disagreements"].append({"writer": "sami", "what": "the paragraphs of language %d in the written "
+                                             "document differ from the document model (placement of syncs)" % li,
+                                             "input": [[list(map(repr, se)) for se in sp] for sp in langs],
+                                             "impl": o, "model": dm[li]})
+            elif ok != 1 and li > 0:
+                k2 = "sami_later_language_orders_predicted_by_the_document_model"
+                dist[k2] = dist.get(k2, 0) + 1
         dist["sami"] = dist.get("sami", 0) + 1
         touching = sum(1 for a, b in zip(spans, spans[1:]) if exact(a[1]) // 1000 == exact(b[0]) // 1000)
         if len(spans) >= 2:
@@ -584,6 +602,10 @@ def run(ctx):
                     "the extracted oracle ok_cues on every caption list with times in [0, 24 h) "
                     "(C02_*_model_meets_oracle); SAMI: C02_sami_write_ok",
                     "SAMI sync rule over all caption lists (C02_sami_sync_rule, rule stated in spec/)",
+                    "SAMI DOCUMENT over several languages: first language any shape, every language of a timeline set, any "
+                    "number of languages (C02_sami_first_language_rule, C02_sami_every_language_rule, "
+                    "C02_sami_document_meets_oracle)",
+                    "binary64 int(t*25.0/1e6) = exact floor for integer t < 24 h (C02_mdvd_frames_binary64)",
                     "SRT and legacy/single-position cues = maximal runs"],
         "definitional_or_partial": ["C02_mdvd_frames_floor_partial, C02_sami_start_integer_partial: model and spec are the "
                                     "same exact-rational floor; content = the decimal printer round trip; the binary64 "
@@ -592,11 +614,11 @@ def run(ctx):
                                     "C02_acc_ms_int, C02_acc_frames_int, C02_acc_ms_respects_equality: spec-internal",
                                     "C02_sami_float_start_refuted, C02_sami_blank_after_ms0_refuted: history (pre-fix "
                                     "variants of the model)"],
-        "correspondence_only": ["binary64 int(t*25.0/1e6) of MicroDVD and int(t // 1000) of SAMI",
+        "correspondence_only": ["binary64 arithmetic for FLOAT times; int(t // 1000) of SAMI",
                                 "token extraction through lxml / html.parser / block splitters",
                                 "that the real writers print the cues of the caption-list models (cue counts compared: "
                                 "a difference is a disagreement)", "writer options do not touch the times",
-                                "SAMI placement of syncs of further languages (bs4 find / insert)"]}
+                                "SAMI placement of syncs for sets that are not timelines (document model compared, request 206)"]}
     res["samples"] = [{"spans": [[repr(s), repr(e)] for (s, e) in cases[0][0][0]]}]
     return res
 
